@@ -242,6 +242,7 @@ SNextSim ==
       [] c = "load"     -> \E t \in 0..(latest + 1) : SLoad(t)
       [] c = "lvfo"     -> \E t \in 1..(latest + 1) : SLvfo(t)
       [] c = "delto"    -> \E n \in 0..(latest + 1) : DelOk(n) /\ SDelTo(n)
+      [] c = "deltook"  -> IF latest = 0 \/ DelEff = {} THEN SSave ELSE \E n \in DelEff : SDelTo(n)
       [] c = "import"   -> IF latest = 0 THEN SSave ELSE \E t \in Retained, f \in BOOLEAN : SImport(t, f)
       [] c = "savecs"   -> \E cs \in CSCands : SSaveCS(cs)
       [] c = "expopen"  -> IF Retained \ pins = {} THEN SRollback ELSE \E t \in Retained \ pins : SExpOpen(t)
